@@ -195,6 +195,60 @@ static void op_create_ex(actor *a, int ui, int how, int xsi)
         check_new_handle(u);
     hist(a, "created", ui, how, 0);
 }
+/* ABT_thread_create_many: up to 4 default-attribute ULTs, all named or all unnamed,
+ * each with its own pool, function and argument (C01: "created ... with the argument it
+ * was given") */
+static void op_create_many(actor *a, op_t *o)
+{
+    ABT_pool pools[4];
+    void (*fns[4])(void *);
+    void *args[4];
+    ABT_thread hs[4];
+    actor *us[4];
+    int n = 0, named = -1;
+    for (int k = 0; k < 4; k++) {
+        if (o->a[k] < 0)
+            break;
+        actor *u = &G.unit[o->a[k]];
+        if (u->created)
+            generr("unit %d created twice", (int)o->a[k]);
+        if (u->utype != U_ULT || u->stackkind || !u->migratable || u->has_cb == 1)
+            generr("create_many needs default-attribute ULTs");
+        if (named >= 0 && named != !!u->named)
+            generr("create_many needs all named or all unnamed");
+        named = !!u->named;
+        us[n] = u;
+        pools[n] = G.pool[u->pool].h;
+        fns[n] = u->alt_fn ? unit_fn1_shim : unit_fn0_shim;
+        args[n] = next_uarg(u);
+        u->expect_pool = u->pool;
+        u->cur_pool = u->pool;
+        u->created = 1;
+        hs[n] = ABT_THREAD_NULL;
+        n++;
+    }
+    if (!n)
+        generr("empty create_many");
+    int rc = ABT_thread_create_many(n, pools, fns, args, ABT_THREAD_ATTR_NULL,
+                                    named ? hs : NULL);
+    CHECK_RC(rc, "ABT_thread_create_many");
+    for (int k = 0; k < n; k++) {
+        actor *u = us[k];
+        if (named) {
+            if (hs[k] == ABT_THREAD_NULL)
+                viol("create_many returned a null handle for u%d", u->id);
+            for (int j = 0; j < k; j++)
+                if (hs[j] == hs[k])
+                    viol("create_many returned the same handle for u%d and u%d", us[j]->id, u->id);
+            u->h = hs[k];
+            ASTORE(u->h_valid, 1);
+            check_new_handle(u);
+        }
+        hist(a, "created", u->id, 3, 0);
+    }
+    stat_add("create_many", 1);
+    stat_add("create_many_units", n);
+}
 static void op_revive(actor *a, int ui, int pool, int to)
 {
     actor *u = &G.unit[ui];
@@ -298,15 +352,20 @@ static void unit_finish_bookkeeping(actor *a, const char *how)
     a->ends++;
     notify_done();
 }
-static void op_exit(actor *a)
+static void op_exit(actor *a, int self)
 {
     if (a->kind != A_UNIT || a->utype != U_ULT)
         generr("exit by a non-ULT");
     a->pc_heap = a->nops; /* nothing may run after the exit */
     unit_finish_bookkeeping(a, "exit");
     stat_add("exits", 1);
-    ABT_thread_exit();
-    viol("u%d continued after ABT_thread_exit", a->id);
+    if (self) {
+        stat_add("self_exits", 1);
+        ABT_self_exit();
+    } else {
+        ABT_thread_exit();
+    }
+    viol("u%d continued after ABT_thread_exit/ABT_self_exit", a->id);
 }
 static void op_cancel(actor *a, int ui)
 {
